@@ -258,8 +258,50 @@ func childC18(args []string) int {
 		run.Sample(map[string]interface{}{"kind": "counters", "goroutines": G, "increments_each": M, "sums": want})
 	}
 
+	// ---- many counters: every registered counter is its own (the table holds 10240)
+	announceCase("many counters")
+	{
+		const N = 7000
+		ids := make([]uint32, N)
+		for i := range ids {
+			ids[i] = metrics.AddCounter(fmt.Sprintf("verif_c18_many_%d", i), nil)
+		}
+		var wg sync.WaitGroup
+		for g := 0; g < 4; g++ {
+			wg.Add(1)
+			go func(g int) {
+				defer wg.Done()
+				for i := g; i < N; i += 4 {
+					metrics.IncCounterBy(ids[i], uint64(i)*3+7)
+					metrics.IncCounter(ids[i])
+					metrics.IncCounter(ids[i])
+				}
+			}(g)
+		}
+		wg.Wait()
+		got := map[string]uint64{}
+		for _, l := range scrapeMetrics() {
+			if strings.HasPrefix(l.Name, "verif_c18_many_") {
+				got[l.Name], _ = strconv.ParseUint(l.Val, 10, 64)
+			}
+		}
+		bad := 0
+		for i := 0; i < N; i++ {
+			if got[fmt.Sprintf("verif_c18_many_%d", i)] != uint64(i)*3+9 {
+				if bad == 0 {
+					run.Violation("metrics|counter|with thousands of counters registered a counter reports a value that differs from its increments", map[string]interface{}{
+						"counter_index": i, "counter_id": ids[i], "reported": got[fmt.Sprintf("verif_c18_many_%d", i)], "expected": uint64(i)*3 + 9})
+				}
+				bad++
+			}
+		}
+		run.Eval(1)
+		run.Count("counter_reads_checked", N)
+		run.Distinct("counter|many")
+	}
+
 	// ---- histograms, sequential periods
-	sizes := []int{1, 2, 3, 19, 20, 21, 100, 1000, 32767, 32768}
+	sizes := []int{1, 2, 3, 19, 20, 21, 100, 1000, 32767, 32768, 32769, 40000}
 	if run.Thorough() {
 		sizes = append(sizes, 5, 7, 99, 101, 999, 1001, 5000, 32766)
 	}
@@ -270,7 +312,7 @@ func childC18(args []string) int {
 		for period := 0; period < 3; period++ {
 			mag := mags[(si+period)%len(mags)]
 			n := size
-			if period == 1 && size > 3 {
+			if period == 1 && size > 3 && size < 30000 {
 				n = size / 2 // a shorter period after a longer one: stale ring slots matter
 			}
 			obs := make([]uint64, n)
